@@ -214,6 +214,8 @@ class Column:
             name: str, parent: Optional[Union[Path, Table, SubQuery]] = None
         ) -> Column:
             col = Column(name)
+            # name is escaped already when source_columns is built, escaping twice would lower-case a quoted name
+            col.raw_name = name
             if parent:
                 col.parent = parent
             return col
@@ -239,5 +241,9 @@ class Column:
                         _to_src_col(src_col, alias_mapping.get(qualifier))
                     )
                 else:
-                    source_columns.add(_to_src_col(src_col, Table(qualifier)))
+                    table = Table(qualifier)
+                    if "." not in qualifier:
+                        # same for qualifier
+                        table.raw_name = qualifier
+                    source_columns.add(_to_src_col(src_col, table))
         return source_columns
